@@ -25,9 +25,9 @@ def run(res, pool, tier, seed):
                      simulate="num=600", depth=6, tlc_seed=seed + 5, workers=8, spec="SpecSim")]
     else:
         jobs = [dict(module="MC_Pure.tla", tag="bfs2", invariants=["DispInv", "ValidInv", "Emit"], properties=["QueryPure", "OwnInv"],
-                     constants=consts(seed, 2, 4), timeout=7200, batch=50),
+                     constants=consts(seed, 2, 12), timeout=7200, batch=50),
                 dict(module="MC_Pure.tla", tag="sim6", invariants=["Emit"], constants=consts(seed, 6, 1), timeout=3600, batch=50,
-                     simulate="num=8000", depth=7, tlc_seed=seed + 5, workers=8, spec="SpecSim")]
+                     simulate="num=4000", depth=7, tlc_seed=seed + 5, workers=8, spec="SpecSim")]
     # every relative position of two operands (the universes of C01 / C02): the whole query battery on one pair, snapshots in between
     flat = ["Point", "Line", "HalfLine", "Segment", "Plane"]
     jobs.append(dict(module="MC_Flat.tla", tag="pairpure-flat", invariants=["Emit"], timeout=1800,
